@@ -245,7 +245,8 @@ class Parser:
             while self.opt(","):
                 args.append(self.type_arg())
             self.eat(">")
-            return f"{name}<{','.join(args)}>"
+            full = f"{name}<{','.join(args)}>"
+            return self.tymap.get(full, full)
         return self.tymap.get(name, name)
 
     def skip_generics(self):
@@ -498,6 +499,23 @@ class Parser:
             e = self.expr()
             self.eat(")")
             return ("paren", e)
+        if v == "[":
+            self.i += 1
+            if self.at("]"):
+                self.i += 1
+                return ("array", [])
+            first = self.expr()
+            if self.opt(";"):
+                n = self.expr()
+                self.eat("]")
+                return ("arrayrep", first, n)
+            items_ = [first]
+            while self.opt(","):
+                if self.at("]"):
+                    break
+                items_.append(self.expr())
+            self.eat("]")
+            return ("array", items_)
         if v == "{":
             return self.block()
         if v == "if" and self.peek(1)[1] == "let":
@@ -817,6 +835,19 @@ class Gen:
                 if rt in NATTY or rt == "int":
                     return (f"({l} {'&&&' if e[1] == '&' else ('|||' if e[1] == '|' else '>>>')} {as_nat(rl, rt)})", lt)
             raise Unsupported(f"bit operation {e[1]} on {lt}")
+        if e[0] == "call" and e[1][0] == "path" and e[1][1][0] == "BytesN" and e[1][1][-1] == "from_array" and len(e[2]) == 2:
+            arr = self.strip(e[2][1])
+            if arr[0] == "arrayrep" and self.strip(arr[1])[0] == "num" and self.strip(arr[2])[0] == "num":
+                return (f"(List.replicate {self.strip(arr[2])[1]} ({self.strip(arr[1])[1]} : Nat))", "Bytes32")
+            raise Unsupported("BytesN::from_array of a non-literal")
+        if e[0] == "call" and e[1][0] == "var" and isinstance(getattr(self, "reads", {}).get(e[1][1]), tuple) \
+                and self.reads[e[1][1]][0] == "purefn" and (self.cur_ns, e[1][1]) not in self.sigs:
+            _, atys, rty_ = self.reads[e[1][1]]
+            args_ = [a for a in e[2] if not self.is_handle(a, env)]
+            if len(args_) != len(atys):
+                raise Unsupported(f"{e[1][1]}: arity")
+            self.uses_reads = True
+            return (f"(envr.{e[1][1]} {' '.join(self.pure(a, env)[0] for a in args_)})", rty_)
         if e[0] == "struct":
             flds = getattr(self, "structs", {}).get(e[1])
             if flds is None or [f for f, _ in flds] != [f for f, _ in e[2]]:
@@ -1181,7 +1212,7 @@ class Gen:
             return self.tr(e[1], env, km, ret)
         if kind == "call":
             f = e[1]
-            if f[0] == "var" and isinstance(getattr(self, "reads", {}).get(f[1]), tuple) and (self.cur_ns, f[1]) not in self.sigs:
+            if f[0] == "var" and isinstance(getattr(self, "reads", {}).get(f[1]), tuple) and self.reads[f[1]][0] == "fn" and (self.cur_ns, f[1]) not in self.sigs:
                 # an INDEXED state getter `name(e, key.., index)`: a function of the reads record that may panic;
                 # the environment and pass-through parameters of opaque (key) types are dropped
                 _, atys, rty_ = self.reads[f[1]]
@@ -1441,6 +1472,13 @@ class Gen:
                             st2 = f"({self.cur_ns}.Store.set_{cell} {env['$st'][0]}{''.join(' ' + x for x in kargs)} {a2})"
                             return go(i + 1, dict(env, **{"$st": (st2, "Store")}))
                         return self.tr(e[3][1], env, kset, ret)
+                    if e[2] == "remove" and len(e[3]) == 1:
+                        ko = self.key_of(e[3][0], env)
+                        if ko is None or "$st" not in env:
+                            raise Unsupported("storage removal with an unknown key")
+                        cell, kargs = ko
+                        st2 = f"({self.cur_ns}.Store.del_{cell} {env['$st'][0]}{''.join(' ' + x for x in kargs)})"
+                        return go(i + 1, dict(env, **{"$st": (st2, "Store")}))
                     raise Unsupported(f"storage operation {e[2]}")
                 if self.writer_call(e) is not None:
                     self._writer_ok = True
@@ -1784,6 +1822,14 @@ FILES_MERKLE = [("Merkle", "packages/contract-utils/src/crypto/hashable.rs", ["c
                 ("Merkle", "packages/contract-utils/src/crypto/merkle.rs", ["verify", "verify_with_index"])]
 TYMAPS_MERKLE = {"packages/contract-utils/src/crypto/hashable.rs": {"H": "Bytes32", "S": "Hasher!", "Output": "Bytes32"},
                  "packages/contract-utils/src/crypto/merkle.rs": {"H": "Hasher!"}}
+STORE_TL = {"TimelockSt": {"MinDelay": ([], "u32"), "OperationLedger": (["Bytes32"], "u32")}}
+STRUCTS_TL = {"Operation": [("target", "Address"), ("function", "u32"), ("args", "u32"), ("predecessor", "Bytes32"), ("salt", "Bytes32")]}
+READS_TL = {"TimelockSt": {"ledger_sequence": "u32", "hash_operation": ("purefn", ["Operation"], "Bytes32")}}
+FILES_TL = [("TimelockSt", "packages/governance/src/timelock/mod.rs", []),
+            ("TimelockSt", "packages/governance/src/timelock/storage.rs",
+             ["get_min_delay", "get_operation_ledger", "get_operation_state", "operation_exists", "is_operation_pending",
+              "is_operation_ready", "is_operation_done", "set_min_delay", "schedule_operation", "set_execute_operation",
+              "cancel_operation"])]
 STORE_DIST = {"Distributor": {"Root": ([], "Bytes32"), "Claimed": (["u32"], "bool")}}
 READS_DIST = {"Distributor": {"merkle": "reads:Merkle", "leaf_hash": ("purefn", ["Leaf"], "Bytes32"), "leaf_index": ("purefn", ["Leaf"], "u32")},
               "Merkle": READS_MERKLE["Merkle"]}
@@ -1954,6 +2000,8 @@ def translate(repo, FILES=FILES, DEPS=(), imports=("OZ.Model.RustSem",), reads=N
                     else:
                         body_ = "some v"
                     out.append(f"def {ns}.Store.set_{cell} (s : {ns}.Store) {ks} (v : {g0.lean_ty(vt)}) : {ns}.Store :=\n  {{ s with {cell} := {body_} }}\n")
+                    body_d = body_.replace("some v", "none")
+                    out.append(f"def {ns}.Store.del_{cell} (s : {ns}.Store) {ks} : {ns}.Store :=\n  {{ s with {cell} := {body_d} }}\n")
         names = [f[1] for f in fns]
         # callee-before-caller order inside the file
         dep = {}
@@ -2273,7 +2321,10 @@ def main():
                 sys.stdout.write(txt)
         sys.exit(rc)
     try:
-        if "--dist" in sys.argv:
+        if "--timelock-st" in sys.argv:
+            txt = translate(repo, FILES_TL, reads=READS_TL, structs=STRUCTS_TL, store=STORE_TL,
+                            tymaps={"packages/governance/src/timelock/storage.rs": {"BytesN<32>": "Bytes32"}})
+        elif "--dist" in sys.argv:
             txt = translate(repo, FILES_DIST, DEPS=FILES_MERKLE, imports=("OZ.Gen.Merkle",), reads=READS_DIST, store=STORE_DIST,
                             tymaps=TYMAPS_DIST, impl_types={"Verifier": "Merkle", "MerkleDistributor": "Distributor"}, stubs=STUBS_DIST)
         elif "--pausable" in sys.argv:
